@@ -41,10 +41,11 @@ const (
 
 // outcome of one decoder call
 type outcome struct {
-	accepted bool
-	panic    *guard.Panic
-	phase    string // "decode" or "sweep"
-	alloc    uint64
+	accepted   bool
+	panic      *guard.Panic
+	phase      string // "decode" or "sweep"
+	alloc      uint64
+	sweepAlloc uint64 // allocated by the accessor sweep
 }
 
 // target is one decoder of the property's list with its accessor sweep.
@@ -337,7 +338,11 @@ func (tg *target) run(b []byte) outcome {
 		})
 		if out.panic == nil && sweep != nil {
 			out.phase = "sweep"
-			out.panic = guard.Try(sweep)
+			// the lazy accessors decode too (cmap subtables, simple glyphs):
+			// they are held to the same bound as the decoder itself
+			out.sweepAlloc = guard.Alloc(func() {
+				out.panic = guard.Try(sweep)
+			})
 		}
 	})
 	return out
@@ -358,6 +363,12 @@ func (tg *target) verdict(b []byte, o outcome) error {
 			return nil
 		}
 		return fmt.Errorf("%s: decoding a %d-byte input allocated %d bytes (bound %d = 64 MiB + 1 KiB per input byte)", tg.name, len(b), o.alloc, limit)
+	} else if o.sweepAlloc > limit {
+		key := "alloc-accessors:" + tg.name
+		if stats.Known("C02", key) {
+			return nil
+		}
+		return fmt.Errorf("%s: the accessors of the value decoded from a %d-byte input allocated %d bytes (bound %d = 64 MiB + 1 KiB per input byte)", tg.name, len(b), o.sweepAlloc, limit)
 	}
 	return nil
 }
